@@ -35,6 +35,20 @@ func (sm *seatManager) RandomAssignSeats(playerIDs []string) error {
 	sm.mu.Lock()
 	defer sm.mu.Unlock()
 
+	// check duplicate & already seated players
+	occupiedSeatIDs := sm.getOccupiedPlayerSeatIDs()
+	targetPlayerIDs := make(map[string]bool)
+	for _, playerID := range playerIDs {
+		if _, exist := targetPlayerIDs[playerID]; exist {
+			return ErrDuplicatePlayers
+		}
+		targetPlayerIDs[playerID] = true
+
+		if _, exist := occupiedSeatIDs[playerID]; exist {
+			return ErrPlayerIsAlreadyExist
+		}
+	}
+
 	seatIDs, err := sm.randomSeatIDs(len(playerIDs))
 	if err != nil {
 		sm.printState(1, func(tag int) {
